@@ -5,6 +5,8 @@ import (
 	"fmt"
 	"os"
 
+	"verif/ref"
+	"verif/ref/krbmsg"
 	"verif/ref/rcrypto"
 )
 
@@ -15,4 +17,10 @@ func main() {
 		os.Exit(3)
 	}
 	fmt.Printf("rcrypto: %d vectors ok\n", n)
+	n, err = krbmsg.SelfTest(ref.MITVectors())
+	if err != nil {
+		fmt.Println("REFERENCE-ERROR", err)
+		os.Exit(3)
+	}
+	fmt.Printf("krbmsg: %d MIT vectors round-trip\n", n)
 }
